@@ -74,6 +74,16 @@ def f1(spec, x):
     raise ValueError(spec)
 
 
+def mapf(spec, x, *args, **kwargs):
+    """map(func, *args, **kwargs): the element comes first, then the extras (asymmetric on purpose)"""
+    if not args and not kwargs:
+        return f1(spec, x)
+    out = (f1(spec, x),) + tuple(args)
+    if kwargs:
+        out = out + tuple(v for k, v in sorted(kwargs.items()))
+    return out
+
+
 def pred(spec, x):
     op = spec[0]
     if op == 'wmod':       # keep unless weight % m == r
